@@ -397,6 +397,23 @@ class TrajArm(Arm):
             return res
         tol = 1e-4 if adaptive else 1e-8
         err = float(np.max(np.abs(a - a0) / (1 + np.abs(a0))))
+        if err > tol and adaptive and inputs:
+            # a piecewise-linear input has kinks that an embedded error estimate does not see: what a solver achieves then
+            # depends on where its steps fall (the NumPy run itself may be 2e-4 off). Both runs are measured against a much
+            # tighter integration; the backend may not be materially worse than the NumPy backend is
+            try:
+                dfr = run_circuit(spec, T, dt, dict(outputs), solver="scipy", backend="default", vectorize=vec, dts=dts,
+                                  inputs=dict(inputs), rtol=1e-12, atol=1e-13, method="DOP853", max_step=T / (steps - 1) / 8)
+                ar = np.column_stack([np.asarray(dfr[f"v{i}"], dtype=float) for i in range(len(sp))])
+                e0 = float(np.max(np.abs(a0 - ar) / (1 + np.abs(ar))))
+                e1 = float(np.max(np.abs(a - ar) / (1 + np.abs(ar))))
+                res.info["judged_against_tight_reference"] = 1
+                if e1 <= max(tol, 10.0 * e0):
+                    return res
+            except HarnessError:
+                raise
+            except Exception:
+                pass
         if err > tol:
             j = int(np.argmax(np.max(np.abs(a - a0), axis=0)))
             r = int(np.argmax(np.abs(a[:, j] - a0[:, j]) / (1 + np.abs(a0[:, j])) > tol))
